@@ -262,6 +262,17 @@ func (s *sys) applyPH(args []string) string {
 	default:
 		panic("unknown PH variant " + variant)
 	}
+	// The previous-commit proof inside the header hands the node precommits of the previous height (backfill).
+	if h > initialH {
+		pcp := ph.Header.PrevCommitProof
+		for target, sigs := range pcp.Proofs {
+			for _, sg := range sigs {
+				if idx, ok := w.verifyVote(w.VS(h-1), 'c', h-1, pcp.Round, target, sg); ok {
+					s.noteDelivered('c', h-1, pcp.Round, target, idx)
+				}
+			}
+		}
+	}
 	return s.call("HandleProposedHeader", func(ctx context.Context) string {
 		return s.handler().HandleProposedHeader(ctx, ph).String()
 	})
@@ -309,6 +320,19 @@ func (s *sys) applyVote(args []string) (string, bool) {
 	default:
 		i, _ := strconv.Atoi(who)
 		idxs = []int{i}
+	}
+	// Honest validators never equivocate; corrupted variants do not count as their vote.
+	if variant == "" || variant == "mix" || variant == "dupid" || variant == "badpkh" {
+		var may []int
+		for _, i := range idxs {
+			if w.honestMay(kind, h, r, i, target) {
+				may = append(may, i)
+			}
+		}
+		if len(may) == 0 {
+			return "n/a:honest-validators-do-not-equivocate", false
+		}
+		idxs = may
 	}
 	var sigs []gcrypto.SparseSignature
 	for _, i := range idxs {
@@ -388,6 +412,7 @@ func (s *sys) applyVote(args []string) (string, bool) {
 	case "dupid":
 		// The same valid signature listed twice.
 		sigs = append(sigs, sigs[0])
+	case "emptymap":
 	default:
 		panic("unknown vote variant " + variant)
 	}
@@ -452,9 +477,11 @@ func (s *sys) applyReplay(variant string) string {
 	case "badhash":
 		hd.DataID = []byte("tampered")
 	case "badprev":
+		// A conflicting header: honest validators would not precommit it, only the Byzantine one does.
 		hd.PrevBlockHash = []byte("not-the-previous-block-hash-0000")
 		w.rehash(&hd)
 		hash = string(hd.Hash)
+		signers = []int{byzIdx}
 	case "foreign":
 		// A self-consistent header that embeds a foreign validator set with huge power, signed by that set.
 		f := w.foreignVS()
@@ -477,8 +504,20 @@ func (s *sys) applyReplay(variant string) string {
 			sigs = append(sigs, gcrypto.SparseSignature{KeyID: keyID(i), Sig: sg})
 		}
 	} else {
+		var ok []int
 		for _, i := range signers {
+			if s.eng != nil && i == w.idxOf(h, s.eng.keyIdx) {
+				continue // the real engine signs for itself
+			}
+			if !w.honestMay('c', h, r, i, hash) {
+				continue
+			}
+			ok = append(ok, i)
 			sigs = append(sigs, w.voteSig('c', h, r, hash, i))
+		}
+		signers = ok
+		if len(sigs) == 0 {
+			return "n/a:no-signer"
 		}
 	}
 	proof := tmconsensus.CommitProof{Round: r, PubKeyHash: string(hd.ValidatorSet.PubKeyHash), Proofs: map[string][]gcrypto.SparseSignature{hash: sigs}}
@@ -505,7 +544,7 @@ func (s *sys) applyReplay(variant string) string {
 					w.noteHonestPrecommit(h, r, hash, i)
 				}
 			}
-			s.commits = append(s.commits, commitEvent{step: s.step, via: "replay", h: hd.Height, hash: hash, round: r, sigs: sigs, pkhash: proof.PubKeyHash})
+			s.replayAccepted = append(s.replayAccepted, commitEvent{step: s.step, via: "replay", h: hd.Height, hash: hash, round: r})
 			return "replay-ok"
 		}
 		return fmt.Sprintf("replay-err:%T", rr.Err)
@@ -575,6 +614,9 @@ func (s *sys) applySMAction(args []string) string {
 			kind = 'c'
 		}
 		target := s.targetHash(args[1], h)
+		if !w.honestMay(kind, h, r, localIdx, target) {
+			return "n/a:honest-validators-do-not-equivocate"
+		}
 		content := w.voteContent(kind, h, r, target)
 		sig := w.sign(h, localIdx, content)
 		ss := tmeil.ScopedSignature{TargetHash: target, SignContent: content, Sig: sig}
